@@ -65,6 +65,8 @@ def pack(
         if valueof is None:
             valueof = items.__getitem__
     else:  # items is a list
+        if isinstance(items, np.ndarray):
+            items = items.tolist()    # plain Python numbers: arithmetic on the elements of an array of a fixed-width integer type (int16, int32, uint8...) silently overflows
         item_names = items
         if valueof is None:
             valueof = lambda item: item
